@@ -225,6 +225,12 @@ func krRot(r *rng, id string, n int) {
 			}
 		}()
 	}
+	// half of these runs exchange stream messages whose sealed form is larger than a packet buffer (64 KiB),
+	// incompressible: a stream must open under any installed key, not just the receiver's first one
+	var bigBody []byte
+	if nodes != nil && r.chance(1, 2) {
+		bigBody = r.bytes(70000)
+	}
 	realTalk := func(s, d int) bool {
 		snd, rcv := nodes[s], nodes[d]
 		to := &ml.Node{Name: rcv.m.LocalNode().Name, Addr: []byte{10, 0, 0, 9}, Port: 7946, PMax: 5}
@@ -245,7 +251,7 @@ func krRot(r *rng, id string, n int) {
 		if got := rcv.del.take(); len(got) != 1 || !bytes.Equal(got[0], pm) {
 			return false
 		}
-		sm := []byte(fmt.Sprintf("str-%d-%d", s, d))
+		sm := append([]byte(fmt.Sprintf("str-%d-%d", s, d)), bigBody...)
 		data := captureStream(snd, func() { snd.m.SendReliable(to, sm) })
 		ml.VerifHandleConn(rcv.m, newFragConn(data, nil))
 		got := rcv.del.take()
